@@ -154,6 +154,31 @@ inline std::vector<long long> cover_at(const Paths64& out, const std::vector<Poi
   return r;
 }
 
+// ---------------------------------------------------------------- guarded execution
+// Runs body in a forked child.  If the child exits normally its output is appended to os; if it is killed
+// (signal, sanitizer abort, timeout) a Crash event carrying `what` (the case's inputs as JSON members) is
+// written instead.  The trace specifications have no step that explains a Crash: a call that does not
+// return cannot satisfy any postcondition.
+#include <sys/wait.h>
+#include <unistd.h>
+inline bool guarded(std::ostream& os, const std::string& what, int timeout_s, const std::function<void(std::ostream&)>& body) {
+  int fd[2]; if (pipe(fd) != 0) { std::ostringstream ss; body(ss); os << ss.str(); return true; }
+  os.flush();
+  pid_t pid = fork();
+  if (pid == 0) {
+    close(fd[0]); alarm((unsigned)timeout_s);
+    std::ostringstream ss; body(ss); std::string d = ss.str();
+    size_t off = 0; while (off < d.size()) { ssize_t w = write(fd[1], d.data() + off, d.size() - off); if (w <= 0) _exit(3); off += (size_t)w; }
+    close(fd[1]); _exit(0);
+  }
+  close(fd[1]); std::string data; char buf[65536]; ssize_t n;
+  while ((n = read(fd[0], buf, sizeof buf)) > 0) data.append(buf, (size_t)n);
+  close(fd[0]); int st = 0; waitpid(pid, &st, 0);
+  if (WIFEXITED(st) && WEXITSTATUS(st) == 0) { os << data; return true; }
+  os << "{\"e\":\"Crash\",\"sig\":" << (WIFSIGNALED(st) ? WTERMSIG(st) : -WEXITSTATUS(st)) << "," << what << "}\n";
+  return false;
+}
+
 // ---------------------------------------------------------------- subcommand registry
 typedef std::map<std::string, std::string> Args;
 typedef int (*CmdFn)(const Args&);
